@@ -232,13 +232,13 @@ func runC11(o *Out) {
 			names = append(names, op)
 			firsts = append(firsts, seqSx(runAliasOp(op, host, guest, hl, gl)))
 		}
-		o.N++
-		o.Dist["op-sequence"]++
-		line := fmt.Sprintf("sequence %v hl=%d gl=%d spare=%d tspare=%d", names, hl, gl, spare, tspare)
+		line := fmt.Sprintf("alias_seq (%s) %d %d %d %d", join(names...), hl, gl, spare, tspare)
 		if snapshot(buf, host, guest, htab, gtab) != before {
+			o.Case("op-sequence", true, line, "changed")
 			o.Violate("argument-modified-by-sequence", line, "")
 			continue
 		}
+		o.Case("op-sequence", true, line, "same")
 		for i, op := range names {
 			if seqSx(runAliasOp(op, host, guest, hl, gl)) != firsts[i] {
 				o.Violate("result-depends-on-history", line, op)
